@@ -451,10 +451,10 @@ func runProp(p propCfg, tier, replay string) int {
 		exit = 1
 	}
 	for _, r := range crashed {
-		if p.CrashIsViolation {
+		if p.CrashIsViolation && !strings.Contains(r.log, "test timed out") {
 			// the test binary leaves the in-flight case behind
 			cur := filepath.Join(work, fmt.Sprintf("run-%d", r.idx), "current-case.json")
-			if _, e := os.Stat(cur); e == nil {
+			if st, e := os.Stat(cur); e == nil && st.Size() > 0 {
 				dst := filepath.Join(root, "replays", p.ID, fmt.Sprintf("crash-shard%d.json", r.idx))
 				_ = os.MkdirAll(filepath.Dir(dst), 0o755)
 				b, _ := os.ReadFile(cur)
